@@ -21,7 +21,7 @@ var (
 	c05Strat   = []string{"none", "auto", "manual"}
 	c05Age     = []time.Duration{-time.Second, 0, time.Second} // age - duration
 	c05NRD     = []string{"unset", "zero", "pos"}
-	c05Restart = []string{"none", "recent", "old", "exact"}
+	c05Restart = []string{"none", "recent", "old", "exact", "first-old-last-recent"}
 	c05Pause   = []string{"none", "ann", "cond", "ann-false"}
 	c05Bool    = []bool{false, true}
 	c05Valid   = []string{"absent", "this", "other"}
@@ -32,14 +32,14 @@ const c05NR = 5 * time.Minute
 
 func (e *C05) Name() string { return "fn.c05" }
 func (e *C05) Rule() string {
-	return "full product: strategy {absent,auto,manual} x age-duration {-1s,0,+1s} x noRestartsDuration {unset,0,5m} x last restart {none, 1m ago, 6m ago, exactly 5m ago} x pause {none, annotation, RS condition, annotation=false} x unpaused {no,yes} x canary-valid {absent,this,other} x failed {no,yes} x active RS {present,missing}; each point is a prepared store given one real EDS Reconcile at an exact virtual instant (exhaustive); non-trivial = points with a canary strategy and the active RS present"
+	return "full product: strategy {absent,auto,manual} x age-duration {-1s,0,+1s} x noRestartsDuration {unset,0,5m} x last restart {none, 1m ago, 6m ago, exactly 5m ago, first 9m ago + latest 1m ago} x pause {none, annotation, RS condition, annotation=false} x unpaused {no,yes} x canary-valid {absent,this,other} x failed {no,yes} x active RS {present,missing}; each point is a prepared store given one real EDS Reconcile at an exact virtual instant (exhaustive); non-trivial = points with a canary strategy and the active RS present"
 }
 func (e *C05) n() int {
 	return len(c05Strat) * len(c05Age) * len(c05NRD) * len(c05Restart) * len(c05Pause) * 2 * len(c05Valid) * 2 * 2
 }
 func (e *C05) Cases(string, int64) int { return 48 }
 func (e *C05) Floors(string) map[string]int {
-	return map[string]int{"C05.points": 10000, "C05.promoted": 3000, "C05.not-promoted": 1500, "C05.either": 50}
+	return map[string]int{"C05.points": 12000, "C05.promoted": 3000, "C05.not-promoted": 1500, "C05.either": 50}
 }
 
 func (e *C05) Run(ctx *core.Ctx, idx int) {
@@ -99,9 +99,16 @@ func (e *C05) point(ctx *core.Ctx, p int) {
 		lastRestartT = now.Add(-6 * time.Minute)
 	case "exact":
 		lastRestartT = now.Add(-c05NR)
+	case "first-old-last-recent":
+		// several restarts: the condition became true long ago, its last update (latest restart) is recent
+		lastRestartT = now.Add(-time.Minute)
 	}
 	if !lastRestartT.IsZero() {
-		rsB.Status.Conditions = append(rsB.Status.Conditions, v1.ExtendedDaemonSetReplicaSetCondition{Type: v1.ConditionTypePodRestarting, Status: corev1.ConditionTrue, LastTransitionTime: metav1.NewTime(lastRestartT), LastUpdateTime: metav1.NewTime(lastRestartT)})
+		trans := lastRestartT
+		if lastRestart == "first-old-last-recent" {
+			trans = now.Add(-9 * time.Minute)
+		}
+		rsB.Status.Conditions = append(rsB.Status.Conditions, v1.ExtendedDaemonSetReplicaSetCondition{Type: v1.ConditionTypePodRestarting, Status: corev1.ConditionTrue, LastTransitionTime: metav1.NewTime(trans), LastUpdateTime: metav1.NewTime(lastRestartT)})
 	}
 	switch pause {
 	case "cond":
